@@ -11,7 +11,7 @@ from typing import Dict, List, Set
 
 from .. import anchors as A
 from ..model import AnalysisError, FuncInfo, Project, call_name, kwarg, walk_local
-from ..paths import PState, PathAnalysis, run_paths, subst_text
+from ..paths import PState, PathAnalysis, relevance_filter, run_paths, subst_text
 from ..report import Report
 
 CARRIERS = {
@@ -116,7 +116,8 @@ def check(P: Project, R: Report) -> None:
                                 seen.setdefault(id(n), []).append(an.origin(subst_text(v, st)))
                 return None
 
-            run_paths(f.node, stmt_event_of=sev, fallible=True)
+            seeds = [v for d in dicts for k, v in zip(d.keys, d.values) if isinstance(k, ast.Constant) and k.value == "id"]
+            run_paths(f.node, stmt_event_of=sev, fallible=True, lit_filter=relevance_filter(f.node, seeds))
             for d in dicts:
                 for o in sorted(set(seen.get(id(d), []))):
                     n_synth += 1
